@@ -137,6 +137,9 @@ func (in *Interp) Eval(n *ast.Node, ctx val.Value, env *Env) (val.Value, *Err) {
 	case ast.Null:
 		return val.NullV, nil
 	case ast.Var:
+		if _, bound := env.Lookup(n.S); !bound && unmodelledBuiltins[n.S] {
+			return val.U, &Err{Kind: "unsupported-builtin:" + n.S}
+		}
 		return in.evalVar(n, ctx, env), nil
 	case ast.Name:
 		// a bare name is a one-step path
